@@ -1248,3 +1248,1055 @@ def check_C08(res):
         "traces_validated_against_impl": r["traces"],
         "samples": [sweep[1].describe()["events"][10:16], sweep[1].meta],
         "l2": r["summary"]})
+
+
+# ====================================================================== generic state oracles
+def state_inv_fails(d, step_k):
+    """the global consistency conditions, read off the implementation's own dump"""
+    f = []
+    users, chans = d["users"], d["channels"]
+    for n, u in users.items():
+        for c in u["channels"]:
+            if c not in chans or n not in chans[c]["users"]:
+                f.append("user %s lists channel %s which does not list the user" % (n, c))
+        if u.get("sender_closed"):
+            f.append("user %s is registered but its connection task is gone (ghost)" % n)
+    for c, ch in chans.items():
+        for n in ch["users"]:
+            if n not in users or c not in users[n]["channels"]:
+                f.append("channel %s lists %s who is not a user on it" % (c, n))
+        for l, fld in RANKLIST.items():
+            flagged = sorted(n for n, fl in ch["users"].items() if l in fl)
+            if flagged != sorted(ch[fld]):
+                f.append("channel %s: rank list %s = %r but members flagged %s = %r" % (c, fld, ch[fld], l, flagged))
+        if not ch["users"] and not ch["preconfigured"]:
+            f.append("channel %s has no members and is not preconfigured" % c)
+    w = sorted(n for n, u in users.items() if "w" in u["modes"])
+    if w != sorted(d["wallops"]):
+        f.append("wallops audience %r but users with +w are %r" % (d["wallops"], w))
+    inv = sum(1 for u in users.values() if "i" in u["modes"])
+    if inv != d["invisible_count"]:
+        f.append("invisible_count = %d but %d users are +i" % (d["invisible_count"], inv))
+    ops = sum(1 for u in users.values() if "o" in u["modes"] or "O" in u["modes"])
+    if ops != d["operators_count"]:
+        f.append("operators_count = %d but %d users are operators" % (d["operators_count"], ops))
+    if d["max_users_count"] < len(users):
+        f.append("max_users_count = %d below the current %d users" % (d["max_users_count"], len(users)))
+    return [("state after step %d: %s" % (step_k, x), {"step": step_k}) for x in f]
+
+
+def inv_oracle(t, steps):
+    fails = []
+    hw = 0
+    cm = ConnMap(t.cfg.name)
+    open_conns = set()
+    for s in sorted(steps, key=lambda s: s["k"]):
+        ev = t.events[s["k"]]
+        d = s.get("dump")
+        if s.get("panics"):
+            fails.append(("the handler aborted at step %d (%r): %s" % (s["k"], ev, s["panics"]), {"step": s["k"]}))
+        if s.get("stall"):
+            fails.append(("connections %r stopped answering at step %d (%r)" % (s["stall"], s["k"], ev), {"step": s["k"]}))
+        if ev[0] == "O" and ev[1] not in (s.get("eof") or []):
+            open_conns.add(ev[1])
+        for c in s.get("eof") or []:
+            open_conns.discard(c)
+        cm.update(s)
+        if d:
+            fails += state_inv_fails(d, s["k"])
+            hw = max(hw, len(d["users"]))
+            if d["max_users_count"] != hw:
+                fails.append(("max_users_count = %d but the high-water mark of this history is %d (step %d)" % (d["max_users_count"], hw, s["k"]), {"step": s["k"]}))
+            if d["conns_count"] != len(open_conns):
+                fails.append(("conns_count = %d but %d connections are open (step %d)" % (d["conns_count"], len(open_conns), s["k"]), {"step": s["k"]}))
+            if sorted(cm.nick.values()) != sorted(d["users"]):
+                fails.append(("registered connections hold %r but the user table has %r (step %d)" % (sorted(cm.nick.values()), sorted(d["users"]), s["k"]), {"step": s["k"]}))
+            mc = t.cfg.max_connections
+            if mc is not None and d["conns_count"] > mc:
+                fails.append(("more connections served (%d) than max_connections=%d" % (d["conns_count"], mc), {"step": s["k"]}))
+    return fails[:6]
+
+
+def expected_eof(t, ev, prev, actor_nick):
+    """connections the protocol itself may close at this step"""
+    return None
+
+
+# ====================================================================== C02
+def own_oracle(t, steps):
+    """a connection only acts as itself: other users' records move only in the ways the protocol allows"""
+    fails = []
+    cm = ConnMap(t.cfg.name)
+    prev = None
+    for s in sorted(steps, key=lambda s: s["k"]):
+        ev = t.events[s["k"]]
+        d = s.get("dump")
+        if prev is not None and d is not None and not s.get("panics"):
+            cid = ev[1] if len(ev) > 1 else None
+            actor = cm.nick.get(cid)
+            line = ev[2] if ev[0] == "L" and isinstance(ev[2], str) else ""
+            verb = first_verb(line) if line else None
+            actor_oper = actor in prev["users"] and "o" in prev["users"][actor]["modes"]
+            for n, u in prev["users"].items():
+                if n == actor:
+                    continue
+                u2 = d["users"].get(n)
+                if u2 is None:
+                    if not (verb in ("KILL", "DIE", "SQUIT") and actor_oper):
+                        fails.append(("%r by connection %d (%s) removed the user %s owned by another connection" % (ev, cid, actor, n), {"step": s["k"]}))
+                    continue
+                for fld in ("name", "realname", "host", "source", "modes", "away", "hist"):
+                    if u[fld] != u2[fld]:
+                        fails.append(("%r by connection %d (%s) changed %s of user %s" % (ev, cid, actor, fld, n), {"step": s["k"]}))
+                if u["channels"] != u2["channels"] and verb != "KICK":
+                    fails.append(("%r by connection %d (%s) changed the memberships of %s" % (ev, cid, actor, n), {"step": s["k"]}))
+                if u["invited"] != u2["invited"] and verb != "INVITE":
+                    fails.append(("%r by connection %d (%s) changed the invitations of %s" % (ev, cid, actor, n), {"step": s["k"]}))
+            for n in d["users"]:
+                if n not in prev["users"] and actor is not None and n != actor and verb != "NICK":
+                    fails.append(("%r by connection %d (%s) created user %s" % (ev, cid, actor, n), {"step": s["k"]}))
+            # every relayed line carries the source of the acting connection's own user
+            if actor in prev["users"]:
+                srcs = {prev["users"][actor]["source"]}
+                for n, u in d["users"].items():
+                    if u["hist"] == prev["users"][actor]["hist"] and n not in prev["users"]:
+                        srcs.add(u["source"])
+                if actor in d["users"]:
+                    srcs.add(d["users"][actor]["source"])
+                for c, ls in (s.get("out") or {}).items():
+                    for l in ls:
+                        m = re.match(r"^:(\S+![^ ]*) ", l)
+                        if m and m.group(1) not in srcs:
+                            fails.append(("%r by %s produced a line attributed to %s: %r" % (ev, actor, m.group(1), l), {"step": s["k"]}))
+            elif actor is None and ev[0] in ("L", "X", "B"):
+                # unregistered (or refused) connection: nothing about registered users may move, unless it registers now
+                newreg = [n for n in d["users"] if n not in prev["users"]]
+                if not newreg:
+                    dd = irc.diff_dump({k: v for k, v in prev.items() if k != "conns_count"}, {k: v for k, v in d.items() if k != "conns_count"}, "state")
+                    if dd:
+                        fails.append(("%r by unregistered connection %d changed the state: %s" % (ev, cid, dd), {"step": s["k"]}))
+        cm.update(s)
+        prev = d
+    return fails
+
+
+def c02_sweep(res):
+    """contention for one nickname: every sequential order of two connections' {NICK x, USER, close} and a third user's moves"""
+    traces = []
+    acts_a = ["NICK zed", "USER a 8 * :A", "X"]
+    acts_b = ["NICK zed", "USER b 8 * :B", "X"]
+    import itertools as it
+    k = 0
+    orders = set()
+    for perm in it.permutations([("a", 0), ("a", 1), ("a", 2), ("b", 0), ("b", 1), ("b", 2)]):
+        # keep each connection's own order NICK/USER free but close last
+        ia = [x[1] for x in perm if x[0] == "a"]
+        ib = [x[1] for x in perm if x[0] == "b"]
+        if ia.index(2) != 2 and res.tier == "quick":
+            continue
+        orders.add(perm)
+    for perm in sorted(orders):
+        k += 1
+        if res.tier == "quick" and k % 3 != res.seed % 3:
+            continue
+        for cfgname, cfg in (("plain", Config()), ("pw", Config(password="secret1"))):
+            t = Trace("c02-%d-%s" % (k, cfgname), cfg)
+            t.register(2, "carol", password=cfg.password)
+            t.line(2, "JOIN #c")
+            t.open(0)
+            t.open(1)
+            if cfg.password:
+                t.line(0, "PASS secret1")
+                t.line(1, "PASS secret1")
+            closed = set()
+            for who, idx in perm:
+                cid = 0 if who == "a" else 1
+                act = (acts_a if who == "a" else acts_b)[idx]
+                if cid in closed:
+                    continue
+                if act == "X":
+                    t.line(cid, "JOIN #c")
+                    t.line(cid, "NICK evil")
+                    t.line(cid, "PRIVMSG #c :I am " + who)
+                    t.close(cid)
+                    closed.add(cid)
+                else:
+                    t.line(cid, act)
+                t.line(2, "ISON zed evil")
+            t.line(2, "NAMES #c")
+            t.line(2, "WHOIS zed")
+            t.meta = {"order": [list(x) for x in perm], "cfg": cfgname}
+            traces.append(t)
+    return traces
+
+
+def check_C02(res):
+    sweep = c02_sweep(res)
+    n = 100 if res.tier == "quick" else 2000
+    prof = {"weights": dict(REG=10, NICK=14, QUIT=3, JOIN=6, PRIVMSG=5, KILL=1, OPER=1.5, MODE=3, UMODE=3, AWAY=2, KICK=2, INVITE=2, BAD=2),
+            "p_close": 0.1, "max_conns": 6, "initial_conns": 2, "p_server_password": 0.3}
+    def orc(t, steps):
+        return own_oracle(t, steps) + inv_oracle(t, steps)
+    r = l2_campaign(res, "C02", n, 45, prof, traces=sweep, oracle=orc)
+    res.coverage.update({
+        "evaluations": r["steps"], "distinct_nontrivial": len(sweep),
+        "rule": "contention sweep: sequential orders of two connections' {NICK zed, USER, (JOIN, NICK evil, PRIVMSG, close)} around a registered bystander, with and without a server password "
+                "(quick: closes last and a seed-selected third of the orders; thorough: all 720 orders); distinct = orders run; plus %d seeded random histories weighted to registration commands, NICK, "
+                "QUIT and abrupt closes; oracle on the implementation: the user table and the registered connections are in bijection after every step, no step by connection i changes or removes a "
+                "user of another connection (except memberships by KICK, invitations by INVITE, removal by an operator's KILL/DIE), an unregistered connection changes nothing, every relayed line "
+                "carries the actor's own source" % n,
+        "exhaustive": res.tier == "thorough",
+        "traces_validated_against_impl": r["traces"],
+        "samples": [sweep[0].describe()["events"][6:]],
+        "l2": r["summary"]})
+
+
+# ====================================================================== C04
+def strip_rank(tok, known):
+    """removes the rank prefix of a 353/319 entry, using the names that exist to resolve '&' / '+' ambiguities"""
+    for j in range(len(tok) + 1):
+        if all(c in "~&@%+" for c in tok[:j]) and tok[j:] in known:
+            return tok[j:]
+    return tok.lstrip("~&@%+")
+
+
+def views_oracle(t, steps):
+    """NAMES / WHO / WHOIS answers agree with the membership relation; PART and NICK are announced"""
+    fails = []
+    cm = ConnMap(t.cfg.name)
+    prev = None
+    srv = t.cfg.name
+    for s in sorted(steps, key=lambda s: s["k"]):
+        ev = t.events[s["k"]]
+        d = s.get("dump")
+        if ev[0] == "L" and isinstance(ev[2], str) and prev is not None and d is not None and not s.get("panics"):
+            actor = cm.nick.get(ev[1])
+            mine = (s.get("out") or {}).get(str(ev[1]), [])
+            if actor in prev["users"] and not (mine and numeric_of(mine[0]) == "ERROR"):
+                me = prev["users"][actor]
+                m = re.match(r"^NAMES ([#&][^ ,]*)$", ev[2])
+                if m:
+                    chn = m.group(1)
+                    ch = prev["channels"].get(chn)
+                    got = set()
+                    for l in mine:
+                        mm = re.match(r"^:\S+ 353 \S+ [=@] (\S+) :(.*)$", l)
+                        if mm and mm.group(1) == chn:
+                            got |= set(strip_rank(x, prev["users"]) for x in mm.group(2).split(" ") if x)
+                    if ch is not None:
+                        member = actor in ch["users"]
+                        if member:
+                            exp = set(ch["users"])
+                        elif "s" in ch["flags"]:
+                            exp = set()
+                        else:
+                            exp = set(n for n in ch["users"] if "i" not in prev["users"][n]["modes"])
+                        if got != exp:
+                            fails.append(("NAMES %s seen by %s lists %r, the members entitled to be seen are %r" % (chn, actor, sorted(got), sorted(exp)), {"step": s["k"]}))
+                m = re.match(r"^WHO ([#&][^ ,*?]*)$", ev[2])
+                if m:
+                    chn = m.group(1)
+                    ch = prev["channels"].get(chn)
+                    got = set(l.split(" ")[7] for l in mine if numeric_of(l) == "352")
+                    if ch is not None:
+                        member = actor in ch["users"]
+                        if "s" in ch["flags"] and not member:
+                            exp = set()
+                        else:
+                            exp = set(n for n in ch["users"] if "i" not in prev["users"][n]["modes"]
+                                      or set(prev["users"][n]["channels"]) & set(me["channels"]))
+                        if got != exp:
+                            fails.append(("WHO %s seen by %s lists %r, expected %r" % (chn, actor, sorted(got), sorted(exp)), {"step": s["k"]}))
+                m = re.match(r"^WHOIS ([^ ,*?#&]+)$", ev[2])
+                if m and m.group(1) in prev["users"]:
+                    n = m.group(1)
+                    u = prev["users"][n]
+                    hidden = "i" in u["modes"] and not (set(u["channels"]) & set(me["channels"]))
+                    got = set()
+                    for l in mine:
+                        mm = re.match(r"^:\S+ 319 \S+ \S+ :(.*)$", l)
+                        if mm:
+                            got |= set(strip_rank(x, prev["channels"]) for x in mm.group(1).split(" ") if x)
+                    exp = set() if hidden else set(c for c in u["channels"] if "s" not in prev["channels"][c]["flags"])
+                    if got != exp:
+                        fails.append(("WHOIS %s seen by %s lists channels %r, expected %r" % (n, actor, sorted(got), sorted(exp)), {"step": s["k"]}))
+                m = re.match(r"^PART ([#&][^ ,]*)(?: :(.*))?$", ev[2])
+                if m:
+                    chn = m.group(1)
+                    ch = prev["channels"].get(chn)
+                    if ch is not None and actor in ch["users"]:
+                        if chn in d["channels"] and actor in d["channels"][chn]["users"]:
+                            fails.append(("PART %s by %s did not end the membership" % (chn, actor), {"step": s["k"]}))
+                        for mem in ch["users"]:
+                            cid = cm.conn_of(mem)
+                            cnt = sum(1 for l in (s.get("out") or {}).get(str(cid), []) if re.match(r"^:\S+ PART %s( |$)" % re.escape(chn), l))
+                            if cnt != 1:
+                                fails.append(("PART %s by %s: member %s saw the announcement %d times" % (chn, actor, mem, cnt), {"step": s["k"]}))
+                m = re.match(r"^NICK (\S+)$", ev[2])
+                if m and m.group(1) not in prev["users"] and m.group(1) in d["users"] and actor not in d["users"]:
+                    new = m.group(1)
+                    sharing = set(n for n, u in prev["users"].items() if n == actor or set(u["channels"]) & set(me["channels"]))
+                    for mem in sharing:
+                        cid = cm.conn_of(mem)
+                        cnt = sum(1 for l in (s.get("out") or {}).get(str(cid), []) if re.match(r"^:%s!\S* NICK :?%s$" % (re.escape(actor), re.escape(new)), l))
+                        if cnt != 1:
+                            fails.append(("NICK %s -> %s: %s (sharing a channel) saw the announcement %d times" % (actor, new, mem, cnt), {"step": s["k"]}))
+        cm.update(s)
+        prev = d
+    return fails
+
+
+class ProbingGen(gen.Gen):
+    """after every membership-changing command, asks NAMES / WHO / WHOIS from a member and from an outsider"""
+
+    def step(self):
+        before = len(self.t.events)
+        super().step()
+        ev = self.t.events[-1] if len(self.t.events) > before else None
+        if ev and ev[0] in ("L", "X") and (ev[0] == "X" or re.match(r"^(JOIN|PART|KICK|NICK|QUIT|KILL|MODE)", str(ev[2]))):
+            regs = self.registered()
+            if regs:
+                ch = self.rng.choice(gen.CHANS[:5])
+                for _ in range(2):
+                    c = self.rng.choice(regs)
+                    self.t.line(c, self.rng.choice(["NAMES " + ch, "WHO " + ch, "WHOIS " + self.some_nick()]))
+
+
+def probing_traces(rng, prefix, n, length, profile):
+    out = []
+    for i in range(n):
+        cfg = gen.rand_config(rng, profile)
+        t = Trace("%s-p%d" % (prefix, i), cfg)
+        g = ProbingGen(rng, t, profile)
+        for _ in range(profile.get("initial_conns", 3)):
+            g.new_conn()
+        while len(t.events) < length:
+            g.step()
+        out.append(t)
+    return out
+
+
+def check_C04(res):
+    n = 150 if res.tier == "quick" else 2500
+    prof = {"weights": dict(JOIN=22, PART=10, KICK=8, NICK=8, QUIT=3, MODE=6, UMODE=4, NAMES=3, WHO=3, WHOIS=3, PRIVMSG=1, KILL=1, OPER=1, BAD=0.5, MISC=0.1),
+            "p_close": 0.07, "max_conns": 6, "initial_conns": 3}
+    rng = random.Random(res.seed + 4)
+    probing = probing_traces(rng, "C04", n, 60, prof)
+    def orc(t, steps):
+        return views_oracle(t, steps) + inv_oracle(t, steps) + join_oracle(t, steps)
+    r = l2_campaign(res, "C04", 0, 0, prof, traces=probing, oracle=orc)
+    res.coverage.update({
+        "evaluations": r["steps"], "distinct_nontrivial": r["summary"]["reply_codes"].get("353", 0) + r["summary"]["reply_codes"].get("352", 0) + r["summary"]["reply_codes"].get("319", 0),
+        "rule": "%d seeded random histories of joins (single and comma lists), parts, kicks, nick changes, quits, kills and abrupt closes over 5 channels and up to 6 users; after every membership-changing "
+                "command two randomly chosen users (members and outsiders) ask NAMES/WHO/WHOIS; oracle on the implementation after EVERY step: user.channels and channel.users are one relation, rank lists "
+                "equal the member flags; each NAMES/WHO/WHOIS answer equals the membership relation restricted to what that viewer may see; JOIN/PART/NICK announcements reach every member exactly once; "
+                "distinct_nontrivial = number of 353/352/319 view lines checked" % n,
+        "traces_validated_against_impl": r["traces"],
+        "samples": [probing[0].describe()["events"][8:24]],
+        "l2": r["summary"]})
+
+
+# ====================================================================== C05
+def eof_oracle(t, steps):
+    """a connection is closed only when the protocol ends it; nobody else is closed, stalled or aborted"""
+    fails = []
+    cm = ConnMap(t.cfg.name)
+    prev = None
+    for s in sorted(steps, key=lambda s: s["k"]):
+        ev = t.events[s["k"]]
+        cid = ev[1] if len(ev) > 1 else None
+        if s.get("panics"):
+            fails.append(("session handler aborted on %r: %s" % (ev, s["panics"]), {"step": s["k"]}))
+        if s.get("stall"):
+            fails.append(("connections %r no longer answer after %r" % (s["stall"], ev), {"step": s["k"]}))
+        eof = set(s.get("eof") or [])
+        allowed = set()
+        if ev[0] == "X":
+            allowed.add(cid)
+        if ev[0] == "O":
+            mc = t.cfg.max_connections
+            if (mc is not None and prev is not None and prev["conns_count"] >= mc) or (prev is not None and prev.get("server_quit")):
+                allowed.add(cid)
+        if ev[0] in ("L", "B"):
+            data = ev[2] if isinstance(ev[2], bytes) else ev[2].encode("utf-8")
+            v = first_verb(ev[2])
+            mine = (s.get("out") or {}).get(str(cid), [])
+            nums = [numeric_of(l) for l in mine]
+            if v == "QUIT" or "464" in nums or "417" in nums or len(data) > 1998:
+                allowed.add(cid)
+            try:
+                data.decode("utf-8")
+            except Exception:
+                allowed.add(cid)
+            actor = cm.nick.get(cid)
+            if v in ("KILL", "DIE", "SQUIT") and prev is not None and actor in prev["users"] and "o" in prev["users"][actor]["modes"]:
+                allowed |= set(cm.nick.keys())
+        bad = eof - allowed
+        if bad:
+            fails.append(("%r closed connections %r which the protocol does not end" % (ev, sorted(bad)), {"step": s["k"]}))
+        cm.update(s)
+        prev = s.get("dump") or prev
+    return fails
+
+
+def torture_lines(rng):
+    verbs = ["CAP", "AUTHENTICATE", "PASS", "NICK", "USER", "PING", "PONG", "OPER", "QUIT", "JOIN", "PART", "TOPIC", "NAMES", "LIST", "INVITE",
+             "KICK", "MOTD", "VERSION", "ADMIN", "CONNECT", "LUSERS", "TIME", "STATS", "LINKS", "HELP", "INFO", "MODE", "PRIVMSG", "NOTICE",
+             "WHO", "WHOIS", "WHOWAS", "KILL", "REHASH", "RESTART", "SQUIT", "AWAY", "USERHOST", "WALLOPS", "ISON", "DIE"]
+    shapes = ["#a", "#b", "#none", "alice", "bob", "nobody", "", "*", "?", "*a*", "a" * 300, "é" * 40, "#a,#a", "alice,alice", "#a,#none,&loc",
+              "+o", "-o", "+l", "-l+l", "+k-k+k", "+b", "+bbbb", "+ovhqa", "18446744073709551615", "18446744073709551616", "99999999999999999999999",
+              "-1", "0", "+5", "x!y@z", "*!*@*", "a*bcd", "*aaaaaaaaaaaaaaaaaaaa", "?é", ":", "::", "a:b", "~&@%+#a", "&&&", "@", "+", "#", "&",
+              "irc.irc", "*.irc", "\x01ACTION\x01", "tab\tsep", "302", "301", "LS", "REQ", "END", "multi-prefix", "u", "m", "x"]
+    v = rng.choice(verbs)
+    if rng.random() < 0.5:
+        v = "".join(ch.lower() if rng.random() < 0.5 else ch for ch in v)
+    n = rng.randint(0, 5)
+    ps = [rng.choice(shapes) for _ in range(n)]
+    line = v + "".join(" " + p for p in ps)
+    if rng.random() < 0.4:
+        line += " :" + rng.choice(shapes + ["trailing text with spaces", ""])
+    return line
+
+
+class TortureGen(gen.Gen):
+    def command(self, cid):
+        if self.rng.random() < 0.55:
+            return torture_lines(self.rng)
+        return super().command(cid)
+
+
+def retry_after_refusal_traces(res):
+    """registration refused half-way (late nick collision, mask mismatch, CAP pending), then retried in every way"""
+    traces = []
+    k = 0
+    retries = [["NICK free1"], ["NICK free1", "USER again 8 * :Again"], ["USER again 8 * :Again", "NICK free1"], ["CAP END"],
+               ["PASS secret1", "NICK free1"], ["NICK zed"], ["CAP LS 302", "NICK free1", "CAP END"], ["NICK free1", "NICK free2", "JOIN #a"]]
+    for cfgname, cfg in (("plain", Config()), ("pw", Config(password="secret1")),
+                         ("mask", Config(users=[dict(name="a", nick="a", password=None, mask="nomatch!*@*")]))):
+        for order in range(3):
+            for ri, retry in enumerate(retries):
+                k += 1
+                t = Trace("retry-%s-%d-%d" % (cfgname, order, ri), cfg)
+                t.open(0)
+                if cfg.password:
+                    t.line(0, "PASS secret1")
+                if order == 0:
+                    t.line(0, "NICK zed")
+                elif order == 1:
+                    t.line(0, "CAP LS 302")
+                    t.line(0, "NICK zed")
+                    t.line(0, "USER a 8 * :A")
+                else:
+                    t.line(0, "USER a 8 * :A")
+                t.register(1, "zed", "b", password=cfg.password)
+                t.line(1, "JOIN #a")
+                t.line(0, {0: "USER a 8 * :A", 1: "CAP END", 2: "NICK zed"}[order])
+                for l in retry:
+                    t.line(0, l)
+                t.line(0, "JOIN #a")
+                t.line(0, "PRIVMSG #a :hello")
+                t.line(1, "PRIVMSG #a :still here")
+                t.line(1, "WHOIS free1")
+                t.line(0, "QUIT")
+                t.line(1, "NAMES #a")
+                t.meta = {"cfg": cfgname, "order": order, "retry": retry}
+                traces.append(t)
+    return traces
+
+
+def check_C05(res):
+    n = 200 if res.tier == "quick" else 3000
+    rng = random.Random(res.seed + 5)
+    prof = {"weights": dict(BAD=8, MODE=10, KICK=6, JOIN=8, PART=4, NICK=4, OPER=3, KILL=1.5, UMODE=4, WHO=3, WHOIS=3, PRIVMSG=4, QUIT=1.5, DIE=0.1),
+            "p_close": 0.06, "max_conns": 6, "initial_conns": 3, "p_default_mode": 0.15}
+    traces = []
+    for i in range(n):
+        cfg = gen.rand_config(rng, prof)
+        t = Trace("C05-t%d" % i, cfg)
+        g = TortureGen(rng, t, prof)
+        for _ in range(3):
+            g.new_conn()
+        while len(t.events) < 55:
+            g.step()
+        # raw byte torture on one connection, then bystanders must still be served
+        c = g.new_conn(register=rng.random() < 0.7)
+        kind = rng.choice(["badutf8", "long1999", "long2001", "nul", "many", "partial"])
+        if kind == "badutf8":
+            t.raw(c, b"PRIVMSG #a :\xff\xfe\r\n")
+        elif kind == "long1999":
+            t.raw(c, b"PRIVMSG #a :" + b"x" * (1998 - 12) + b"\r\n")
+        elif kind == "long2001":
+            t.raw(c, b"PRIVMSG #a :" + b"x" * (2001 - 12) + b"\r\n")
+        elif kind == "nul":
+            t.raw(c, b"PRIVMSG #a :a\x00b\r\nJOIN #\x00\r\n")
+        elif kind == "many":
+            t.raw(c, b"JOIN #a\r\nJOIN #b\nPART #a\r\n\r\n  \r\nLUSERS\r\n", [3, 9, 20])
+        else:
+            t.raw(c, b"JOIN #")
+            t.raw(c, b"zz\r\nPI")
+            t.raw(c, b"NG q\r\n")
+        regs = g.registered()
+        for c2 in regs[:3]:
+            t.line(c2, "PING alive")
+            t.line(c2, "PRIVMSG #a :still here")
+        traces.append(t)
+    traces += retry_after_refusal_traces(res)
+    def orc(t, steps):
+        return eof_oracle(t, steps) + inv_oracle(t, steps)
+    r = l2_campaign(res, "C05", 0, 0, prof, traces=traces, oracle=orc)
+    # pure functions: no abort on any input (debug, and release in the thorough tier)
+    pl = []
+    for _ in range(4000 if res.tier == "quick" else 60000):
+        pl.append("P " + hx(torture_lines(rng)))
+    for _ in range(2000 if res.tier == "quick" else 20000):
+        pl.append("N " + hx("".join(rng.choice("ab!@*é.") for _ in range(rng.randint(0, 8)))))
+        pl.append("G " + hx("".join(rng.choice("~&@%+#ab é") for _ in range(rng.randint(0, 6)))))
+    outs = run_pure(pl)
+    if res.tier == "thorough":
+        outs += run_pure(pl, binary=irc.RSH_REL)
+    aborted = [(l, o) for l, o in zip(pl + pl, outs) if o.startswith("PANIC")]
+    for l, o in aborted[:3]:
+        res.violation("a pure parsing function aborts: %s -> %s" % (l, o), {"kind": "pure", "case": l, "impl": o}, found=True)
+    inv = panic_inventory()
+    if inv["new"]:
+        res.violation("abort sites in /repo/src that the model does not cover: %s" % "; ".join(inv["new"][:5]),
+                      {"kind": "inventory", "new_sites": inv["new"], "note": "C05_no_panic covers exactly the sites of inventory/panic_sites.json"}, found=False)
+    res.coverage.update({
+        "evaluations": r["steps"] + len(pl), "distinct_nontrivial": len(set(pl)) + r["traces"],
+        "rule": "%d torture histories: 55%% of the commands are random verb x arity 0..6 x parameter shapes (existing/absent/duplicated names, empty, 300-character and multi-byte parameters, wildcard-heavy "
+                "masks, numeric extremes, sign-switching mode strings, comma lists with repeats) in every session state, followed by raw-byte torture (invalid UTF-8, 1999/2001-byte lines, NUL, several "
+                "lines per segment, lines split across segments) and liveness probes of bystanders; oracle: no handler abort (panic hook), no stalled connection, no connection closed except by "
+                "QUIT / 464 / 417 / invalid UTF-8 / operator KILL or DIE / the client itself, state invariants after every step; plus %d pure-function cases (parse, normalise, target type) under catch_unwind; "
+                "plus the abort-site inventory of /repo/src compared with inventory/panic_sites.json; distinct = distinct pure cases + histories" % (n, len(pl)),
+        "traces_validated_against_impl": r["traces"], "abort_sites_in_source": inv["count"], "abort_sites_new": inv["new"],
+        "samples": [traces[0].describe()["events"][20:30]],
+        "l2": r["summary"]})
+
+
+def panic_inventory():
+    """every explicit abort site of the non-test code, keyed by file+function+snippet, vs the committed table"""
+    import hashlib
+    sites = []
+    for rel in ["src/utils.rs", "src/command.rs", "src/config.rs", "src/reply.rs", "src/state/mod.rs", "src/state/structs.rs",
+                "src/state/conn_cmds.rs", "src/state/channel_cmds.rs", "src/state/rest_cmds.rs", "src/state/srv_query_cmds.rs"]:
+        path = os.path.join("/repo", rel)
+        try:
+            text = open(path).read()
+        except Exception:
+            continue
+        cut = text.find("#[cfg(test)]")
+        if cut >= 0:
+            text = text[:cut]
+        fn = "?"
+        for ln in text.split("\n"):
+            m = re.match(r"\s*(?:pub(?:\([a-z]+\))?\s+)?(?:async\s+)?fn\s+(\w+)", ln)
+            if m:
+                fn = m.group(1)
+            code = ln.split("//")[0]
+            for pat in (r"\.unwrap\(\)", r"\.expect\(", r"panic!\(", r"unreachable!\(", r"\[[^\]\[]*\.\.[^\]\[]*\]", r"\w\[[a-z_][a-z_0-9]*(?: [-+] \d+)?\]",
+                        r"-= 1", r"\.len\(\) - "):
+                for mm in re.finditer(pat, code):
+                    snippet = re.sub(r"\s+", " ", code.strip())
+                    sites.append("%s::%s::%s" % (rel, fn, snippet))
+    sites = sorted(set(sites))
+    table_path = os.path.join(irc.VERIF, "inventory", "panic_sites.json")
+    try:
+        table = json.load(open(table_path))
+    except Exception:
+        table = {"sites": {}}
+    known = set(table["sites"])
+    return {"count": len(sites), "new": [s for s in sites if s not in known], "gone": [s for s in known if s not in sites], "sites": sites}
+
+
+# ====================================================================== C06
+def end_oracle(t, steps):
+    """every way a session ends leaves no trace; nothing else changes"""
+    fails = []
+    cm = ConnMap(t.cfg.name)
+    prev = None
+    for s in sorted(steps, key=lambda s: s["k"]):
+        ev = t.events[s["k"]]
+        d = s.get("dump")
+        if prev is not None and d is not None and not s.get("panics"):
+            ended = [(c, cm.nick[c]) for c in (s.get("eof") or []) if c in cm.nick]
+            line = ev[2] if ev[0] == "L" and isinstance(ev[2], str) else ""
+            only_end = ev[0] in ("X", "B") or first_verb(line) in ("QUIT", "KILL", "DIE", "SQUIT")
+            for c, n in ended:
+                if n in d["users"]:
+                    fails.append(("connection %d (%s) ended at step %d but the user is still registered" % (c, n, s["k"]), {"step": s["k"]}))
+                for chn, ch in d["channels"].items():
+                    if n in ch["users"] or any(n in ch[f] for f in RANKLIST.values()):
+                        fails.append(("%s ended but is still on the roster / a rank list of %s" % (n, chn), {"step": s["k"]}))
+                if n in d["wallops"]:
+                    fails.append(("%s ended but is still in the WALLOPS audience" % n, {"step": s["k"]}))
+                hp, ha = prev["histories"].get(n, []), d["histories"].get(n, [])
+                if len(ha) != len(hp) + 1 or ha[:-1] != hp or ha[-1] != prev["users"][n]["hist"]:
+                    fails.append(("%s ended but WHOWAS history went from %r to %r" % (n, hp, ha), {"step": s["k"]}))
+                for chn in prev["users"][n]["channels"]:
+                    chp = prev["channels"][chn]
+                    if set(chp["users"]) - set(x[1] for x in ended) == set() and not chp["preconfigured"] and chn in d["channels"]:
+                        fails.append(("%s left %s empty but the channel still exists" % (n, chn), {"step": s["k"]}))
+            if ended and only_end:
+                gone = set(n for _, n in ended)
+                for n, u in prev["users"].items():
+                    if n in gone:
+                        continue
+                    u2 = d["users"].get(n)
+                    if u2 is None:
+                        fails.append(("the end of %r removed the unrelated user %s" % (sorted(gone), n), {"step": s["k"]}))
+                    elif {k: v for k, v in u.items() if k != "kill_pending"} != {k: v for k, v in u2.items() if k != "kill_pending"}:
+                        fails.append(("the end of %r changed the unrelated user %s: %s" % (sorted(gone), n, irc.diff_dump(u, u2, n)), {"step": s["k"]}))
+                for chn, ch in prev["channels"].items():
+                    ch2 = d["channels"].get(chn)
+                    if ch2 is None:
+                        continue
+                    for fld in ("topic", "flags", "key", "limit", "ban", "exception", "invex", "default", "ban_info", "preconfigured"):
+                        if ch[fld] != ch2[fld]:
+                            fails.append(("the end of %r changed %s of channel %s" % (sorted(gone), fld, chn), {"step": s["k"]}))
+                    for m2, fl in ch["users"].items():
+                        if m2 not in gone and ch2["users"].get(m2) != fl:
+                            fails.append(("the end of %r changed the rank of %s on %s" % (sorted(gone), m2, chn), {"step": s["k"]}))
+                if d["conns_count"] != prev["conns_count"] - len(set(s.get("eof") or [])):
+                    fails.append(("connection slots: %d before, %d after %d endings" % (prev["conns_count"], d["conns_count"], len(set(s.get("eof") or []))), {"step": s["k"]}))
+        cm.update(s)
+        prev = d
+    return fails
+
+
+def c06_sweep(res):
+    traces = []
+    ways = ["QUIT", "CLOSE", "MIDLINE", "KILL", "BADUTF8", "TOOLONG", "CAPEND_QUIT", "CAPEND_CLOSE", "DIE"]
+    k = 0
+    for way in ways:
+        for variant in range(4):
+            cfg = Config(operators=[dict(name="admin", password="operpass")], default_modes="w" if variant == 1 else "",
+                         channels=[dict(name="#pre", topic="P", operators=["victim"])])
+            t = Trace("c06-%s-%d" % (way, variant), cfg)
+            t.register(0, "victim")
+            t.register(1, "friend")
+            t.register(2, "admin")
+            t.line(2, "OPER admin operpass")
+            t.line(0, "JOIN #solo,#shared,#pre")
+            t.line(1, "JOIN #shared")
+            t.line(0, "MODE #shared +o friend")
+            t.line(0, "MODE victim +iw")
+            t.line(1, "MODE friend +w")
+            t.line(0, "AWAY :brb")
+            t.line(1, "JOIN #inv")
+            t.line(1, "MODE #inv +i")
+            t.line(1, "INVITE victim #inv")
+            t.line(0, "INVITE friend #solo")
+            if variant == 2:
+                t.line(0, "OPER admin operpass")
+            if variant == 3:
+                t.line(0, "NICK victim2")
+                t.line(0, "NICK victim")
+            if way == "QUIT":
+                t.line(0, "QUIT :bye")
+            elif way == "CLOSE":
+                t.close(0)
+            elif way == "MIDLINE":
+                t.raw(0, b"PRIVMSG #shared :unfinished")
+                t.close(0)
+            elif way == "KILL":
+                t.line(2, "KILL victim :out")
+            elif way == "BADUTF8":
+                t.raw(0, b"PRIVMSG #shared :\xc3\x28\r\n")
+            elif way == "TOOLONG":
+                t.raw(0, b"PRIVMSG #shared :" + b"y" * 2100 + b"\r\n")
+            elif way == "CAPEND_QUIT":
+                t.line(0, "CAP END")
+                t.line(0, "QUIT")
+            elif way == "CAPEND_CLOSE":
+                t.line(0, "CAP LS 302")
+                t.line(0, "CAP END")
+                t.close(0)
+            elif way == "DIE":
+                t.line(2, "DIE :stop")
+            t.line(1, "NAMES #shared")
+            t.line(1, "WHOWAS victim")
+            t.line(1, "ISON victim")
+            t.line(1, "LIST")
+            t.open(3)
+            t.line(3, "NICK victim")
+            t.line(3, "USER v 8 * :again")
+            t.meta = {"way": way, "variant": variant}
+            traces.append(t)
+    return traces
+
+
+def check_C06(res):
+    sweep = c06_sweep(res)
+    n = 120 if res.tier == "quick" else 2500
+    prof = {"weights": dict(QUIT=6, KILL=3, OPER=3, JOIN=12, MODE=8, UMODE=6, INVITE=4, AWAY=2, NICK=4, PRIVMSG=3, PART=3, KICK=3, REG=3, DIE=0.2),
+            "p_close": 0.14, "max_conns": 6, "initial_conns": 3, "p_default_mode": 0.15}
+    def orc(t, steps):
+        return end_oracle(t, steps) + inv_oracle(t, steps)
+    r = l2_campaign(res, "C06", n, 50, prof, traces=sweep, oracle=orc)
+    res.coverage.update({
+        "evaluations": r["steps"], "distinct_nontrivial": len(sweep),
+        "rule": "sweep: 9 ways of ending (QUIT, socket close, close mid-line, KILL, invalid UTF-8, over-long line, CAP END then QUIT, CAP LS/END then close, DIE) x 4 user states (plain; default +w; IRC "
+                "operator; nick changed there and back) of a user that is founder of a solo channel, operator of a shared and of a preconfigured channel, +i +w, away, invited and inviting; followed by "
+                "NAMES/WHOWAS/ISON/LIST probes and re-registration under the freed nick; plus %d seeded random histories with frequent QUIT/close/KILL; oracle on the implementation at every ending: the "
+                "user is gone from the user table, every roster, rank list and the WALLOPS audience, WHOWAS grew by exactly its entry, channels left empty vanished unless preconfigured, every other user "
+                "and every other channel field is unchanged, the connection count dropped by the number of endings; distinct = sweep cells" % n,
+        "traces_validated_against_impl": r["traces"],
+        "samples": [sweep[2].describe()["events"][18:]],
+        "l2": r["summary"]})
+    res.assumptions = ["RST, unread output pending and ping timeout endings reach the same remove_user path; ping timeout is exercised in real time by C17"]
+
+
+# ====================================================================== C11
+def oper_oracle(t, steps):
+    """operator status only from OPER (or default modes); operator commands need it"""
+    fails = []
+    cm = ConnMap(t.cfg.name)
+    prev = None
+    cfg = t.cfg
+    for s in sorted(steps, key=lambda s: s["k"]):
+        ev = t.events[s["k"]]
+        d = s.get("dump")
+        if prev is not None and d is not None and not s.get("panics"):
+            cid = ev[1] if len(ev) > 1 else None
+            actor = cm.nick.get(cid)
+            line = ev[2] if ev[0] == "L" and isinstance(ev[2], str) else ""
+            verb = first_verb(line) if line else None
+            for n, u in d["users"].items():
+                for flag in "oO":
+                    if flag in u["modes"]:
+                        before = None
+                        # the same person before this step (same nick, or renamed this step)
+                        if n in prev["users"]:
+                            before = prev["users"][n]
+                        elif verb == "NICK" and actor in prev["users"] and actor not in d["users"]:
+                            before = prev["users"][actor]
+                        if before is not None and flag in before["modes"]:
+                            continue
+                        if before is None:
+                            if flag in cfg.default_modes:
+                                continue
+                            fails.append(("%s registered with mode +%s although the default user modes are %r" % (n, flag, cfg.default_modes), {"step": s["k"]}))
+                            continue
+                        ok = False
+                        m = re.match(r"^OPER (\S+) (\S+)", line)
+                        if flag == "o" and m and n == actor:
+                            oc = [o for o in cfg.operators if o["name"] == m.group(1)]
+                            if oc and oc[-1]["password"] == m.group(2) and (oc[-1].get("mask") is None or py_glob(oc[-1]["mask"], before["source"])):
+                                ok = True
+                        if not ok:
+                            fails.append(("%s gained mode +%s by %r (actor %s) - not an OPER with a configured name, its password and a matching mask" % (n, flag, ev, actor), {"step": s["k"]}))
+            if actor in prev["users"]:
+                am = prev["users"][actor]["modes"]
+                if verb in ("KILL", "DIE", "SQUIT") and "o" not in am:
+                    dd = irc.diff_dump(prev, d, "state")
+                    if dd or s.get("eof"):
+                        fails.append(("%r by %s without operator status had an effect: %s eof=%r" % (ev, actor, dd, s.get("eof")), {"step": s["k"]}))
+                if verb == "KILL" and "o" in am:
+                    m = re.match(r"^KILL (\S+) :?(.*)$", line)
+                    if m and m.group(1) in prev["users"]:
+                        victim = m.group(1)
+                        vc = cm.conn_of(victim)
+                        if (s.get("eof") or []) != [vc]:
+                            fails.append(("KILL %s by operator %s closed %r, expected exactly connection %r" % (victim, actor, s.get("eof"), vc), {"step": s["k"]}))
+                        errs = [l for l in (s.get("out") or {}).get(str(vc), []) if "ERROR :User killed by %s" % actor in l]
+                        if len(errs) != 1:
+                            fails.append(("KILL %s: the victim was not told who did it: %r" % (victim, (s.get("out") or {}).get(str(vc))), {"step": s["k"]}))
+                if verb == "WALLOPS" and re.match(r"^WALLOPS :?\S", line):
+                    got = sorted(c for c, ls in (s.get("out") or {}).items() for l in ls if re.match(r"^:\S+ WALLOPS ", l))
+                    if "o" in am or "O" in am:
+                        exp = sorted(str(cm.conn_of(n)) for n, u in prev["users"].items() if "w" in u["modes"])
+                    else:
+                        exp = []
+                    if got != exp:
+                        fails.append(("WALLOPS by %s (%s) reached connections %r, expected %r" % (actor, am, got, exp), {"step": s["k"]}))
+                m = re.match(r"^MODE (\S+) ([-+][-+iwoOr]*)$", line)
+                if m and m.group(1) == actor and actor in d["users"]:
+                    sign = None
+                    last = {}
+                    for ch in m.group(2):
+                        if ch in "+-":
+                            sign = ch
+                        else:
+                            last[ch] = sign
+                    after_modes = d["users"][actor]["modes"]
+                    if last.get("o") == "-" and "o" in after_modes:
+                        fails.append(("%r by %s: operator status was given up with -o but the user still has modes %s" % (ev, actor, after_modes), {"step": s["k"]}))
+                    if last.get("O") == "-" and ("O" in after_modes or ("o" in after_modes and last.get("o") != "+")):
+                        fails.append(("%r by %s: operator status was given up with -O but the user still has modes %s" % (ev, actor, after_modes), {"step": s["k"]}))
+                m = re.match(r"^MODE ([^#& ]\S*) (\S+)", line)
+                if m and m.group(1) != actor and m.group(1) in prev["users"]:
+                    if prev["users"][m.group(1)] != d["users"].get(m.group(1)):
+                        fails.append(("%r by %s changed another user's modes" % (ev, actor), {"step": s["k"]}))
+        cm.update(s)
+        prev = d
+    return fails
+
+
+def c11_sweep(res):
+    traces = []
+    for dm in ("", "O", "o", "w"):
+        for mask in (None, "*!*@127.0.0.1", "other!*@*"):
+            cfg = Config(default_modes=dm, operators=[dict(name="admin", password="operpass", mask=mask), dict(name="alice", password="topsecret")])
+            for nickcase in ("alice", "admin", "zoe"):
+                t = Trace("c11-%s-%s-%s" % (dm or "none", "m%d" % (0 if mask is None else len(mask)), nickcase), cfg)
+                t.register(0, nickcase)
+                t.register(1, "bob")
+                t.register(2, "carol")
+                t.line(2, "MODE carol +w")
+                for l in ["MODE %s +o" % nickcase, "MODE %s +O" % nickcase, "MODE %s +oO-i+w" % nickcase, "KILL bob :no", "DIE", "WALLOPS :hi",
+                          "STATS u", "OPER admin wrongpw", "OPER nobody operpass", "OPER admin operpass", "OPER admin operpass", "MODE %s" % nickcase,
+                          "LUSERS", "WALLOPS :ops only", "STATS u", "MODE bob +i", "MODE %s -o" % nickcase, "KILL bob :after -o", "MODE %s -O" % nickcase,
+                          "KILL bob :after -O", "OPER admin operpass", "NICK admin2", "MODE admin2 -o+o", "OPER alice topsecret", "KILL bob :now", "SQUIT other.irc :x",
+                          "NICK alice", "MODE alice +o"]:
+                    t.line(0, l)
+                t.line(1, "PING x")
+                t.meta = {"default": dm, "mask": mask, "nick": nickcase}
+                traces.append(t)
+    return traces
+
+
+def check_C11(res):
+    sweep = c11_sweep(res)
+    n = 100 if res.tier == "quick" else 2000
+    prof = {"weights": dict(OPER=14, UMODE=16, KILL=5, WALLOPS=5, NICK=6, DIE=0.4, MISC=3, JOIN=4, PRIVMSG=2, QUIT=1.5),
+            "p_operators": 1.0, "p_default_mode": 0.2, "max_conns": 5, "initial_conns": 3}
+    def orc(t, steps):
+        return oper_oracle(t, steps) + inv_oracle(t, steps)
+    r = l2_campaign(res, "C11", n, 45, prof, traces=sweep, oracle=orc)
+    res.coverage.update({
+        "evaluations": r["steps"], "distinct_nontrivial": len(sweep),
+        "rule": "sweep: default user modes {none, O, o, w} x operator mask {none, matching, non-matching} x acting nick {equal to a configured operator name (two kinds), other}, each running MODE +o/+O "
+                "on itself, privileged commands before OPER, OPER with wrong password / unknown name / right credentials (twice), privileged commands after, -o and -O, nick changes to and from "
+                "configured operator names, MODE on a foreign nick; plus %d seeded random histories weighted to OPER/MODE/KILL/WALLOPS/NICK; oracle on the implementation: a user gains +o/+O only by its own "
+                "OPER naming a configured operator with that operator's password from a source matching the mask (or by default modes at registration); KILL/DIE/SQUIT without +o change nothing; KILL closes "
+                "exactly the victim and tells it who; WALLOPS reaches exactly the +w users and only from (local) operators; counters checked after every step; distinct = sweep cells" % n,
+        "traces_validated_against_impl": r["traces"],
+        "samples": [sweep[1].describe()["events"][8:20]],
+        "l2": r["summary"]})
+
+
+# ====================================================================== C15
+def nick_oracle(t, steps):
+    """an accepted NICK change moves the whole identity and nothing else; a refused one changes nothing"""
+    fails = []
+    cm = ConnMap(t.cfg.name)
+    prev = None
+    for s in sorted(steps, key=lambda s: s["k"]):
+        ev = t.events[s["k"]]
+        d = s.get("dump")
+        if ev[0] == "L" and isinstance(ev[2], str) and prev is not None and d is not None and not s.get("panics"):
+            actor = cm.nick.get(ev[1])
+            m = re.match(r"^(?i:NICK) :?(\S*)$", ev[2])
+            if m and actor in prev["users"]:
+                new = m.group(1)
+                mine = (s.get("out") or {}).get(str(ev[1]), [])
+                valid = new != "" and not any(c in new for c in ".,:") and new[0] not in "#&"
+                if not valid or new == actor or new in prev["users"]:
+                    dd = irc.diff_dump(prev, d, "state")
+                    if dd:
+                        fails.append(("refused/no-op %r by %s changed the state: %s" % (ev[2], actor, dd), {"step": s["k"]}))
+                    if new in prev["users"] and new != actor and not any(numeric_of(l) == "433" for l in mine):
+                        fails.append(("%r to a nickname in use was not answered with 433: %r" % (ev[2], mine), {"step": s["k"]}))
+                else:
+                    # expected state: rename everywhere
+                    import copy
+                    e = copy.deepcopy(prev)
+                    u = e["users"].pop(actor)
+                    u["source"] = new + u["source"][len(actor):]
+                    e["users"][new] = u
+                    for chn in u["channels"]:
+                        ch = e["channels"][chn]
+                        ch["users"][new] = ch["users"].pop(actor)
+                        for fld in RANKLIST.values():
+                            ch[fld] = sorted(new if x == actor else x for x in ch[fld])
+                    e["wallops"] = sorted(new if x == actor else x for x in e["wallops"])
+                    e["histories"].setdefault(actor, [])
+                    e["histories"][actor] = e["histories"][actor] + [u["hist"]]
+                    dd = irc.diff_dump(e, d, "state")
+                    if dd:
+                        fails.append(("%r by %s: the state is not 'everything of %s moved to %s and nothing else' (expected vs actual): %s" % (ev[2], actor, actor, new, dd), {"step": s["k"]}))
+                    sharing = set(n for n, uu in prev["users"].items() if n == actor or set(uu["channels"]) & set(prev["users"][actor]["channels"]))
+                    for mem in sharing:
+                        c2 = cm.conn_of(mem)
+                        cnt = sum(1 for l in (s.get("out") or {}).get(str(c2), []) if re.match(r"^:%s!\S* (?i:NICK) :?%s$" % (re.escape(actor), re.escape(new)), l))
+                        if cnt != 1:
+                            fails.append(("NICK %s -> %s: %s saw the announcement %d times" % (actor, new, mem, cnt), {"step": s["k"]}))
+        cm.update(s)
+        prev = d
+    return fails
+
+
+def c15_sweep(res):
+    traces = []
+    for variant in range(6):
+        cfg = Config(operators=[dict(name="admin", password="operpass")], default_modes="w" if variant == 5 else "",
+                     channels=[dict(name="#pre", voices=["mover"], protecteds=["mover2"])])
+        t = Trace("c15-%d" % variant, cfg)
+        t.register(0, "mover")
+        t.register(1, "friend")
+        t.register(2, "other")
+        t.open(3)
+        t.line(3, "NICK claimed")
+        t.line(0, "JOIN #own,#shared,#pre")
+        t.line(1, "JOIN #shared,#v")
+        t.line(1, "MODE #v +v friend")
+        t.line(0, "MODE #shared +h friend")
+        t.line(1, "INVITE mover #v")
+        t.line(0, "MODE mover +iw")
+        t.line(0, "AWAY :gone")
+        if variant >= 1:
+            t.line(0, "OPER admin operpass")
+        if variant >= 2:
+            t.line(0, "MODE #shared +vaq mover mover mover")
+        if variant == 3:
+            t.line(0, "MODE #shared -oq mover mover")
+        if variant == 4:
+            t.line(0, "PART #own")
+            t.line(0, "MODE #shared -qo+v mover mover mover")
+        for new in ["mover2", "mover", "friend", "claimed", "bad.nick", "#chan", "Mover2", "mover2", "mover", "x", "mover"]:
+            t.line(0, "NICK " + new)
+            t.line(1, "PRIVMSG +#shared,@#shared,#shared :ping")
+            t.line(2, "WHOWAS mover")
+        t.line(1, "NICK mover")
+        t.line(1, "WALLOPS :x")
+        t.line(0, "JOIN #v")
+        t.line(1, "NAMES #shared")
+        t.meta = {"variant": variant}
+        traces.append(t)
+    return traces
+
+
+def check_C15(res):
+    sweep = c15_sweep(res)
+    n = 120 if res.tier == "quick" else 2500
+    prof = {"weights": dict(NICK=24, JOIN=10, MODE=10, UMODE=6, AWAY=3, INVITE=4, OPER=3, PRIVMSG=6, WALLOPS=2, KICK=2, PART=2, QUIT=1, WHOWAS=2),
+            "max_conns": 6, "initial_conns": 4, "p_close": 0.04, "p_default_mode": 0.15}
+    def orc(t, steps):
+        return nick_oracle(t, steps) + inv_oracle(t, steps) + msg_oracle(t, steps)
+    r = l2_campaign(res, "C15", n, 50, prof, traces=sweep, oracle=orc)
+    res.coverage.update({
+        "evaluations": r["steps"], "distinct_nontrivial": sum(1 for t in r["trace_objs"] for e in t.events if e[0] == "L" and str(e[2]).upper().startswith("NICK ")),
+        "rule": "sweep: a user that is founder of an own channel, member of a shared and of a preconfigured channel (configured voice), +i +w, away, invited; variants add IRC operator status, every rank on "
+                "the shared channel, voice only, default +w; then NICK to {free, own current, taken by a registered user, claimed by an unregistered connection, invalid (dot, channel prefix), case variant, "
+                "previously used, there and back} each followed by status-addressed messages and WHOWAS; plus %d seeded random histories weighted to NICK; oracle on the implementation: after an accepted "
+                "change the whole state equals the old state with the nickname replaced in the user table, every roster, every rank list, the WALLOPS audience, plus one WHOWAS entry - nothing else; a refused "
+                "change leaves the state identical; the change is announced once to everyone sharing a channel; status-addressed deliveries after the change follow the audience rule; distinct = NICK commands run" % n,
+        "traces_validated_against_impl": r["traces"],
+        "samples": [sweep[2].describe()["events"][16:26]],
+        "l2": r["summary"]})
+
+
+# ====================================================================== C19
+def stats_oracle(t, steps):
+    fails = []
+    cm = ConnMap(t.cfg.name)
+    prev = None
+    srv = t.cfg.name
+    for s in sorted(steps, key=lambda s: s["k"]):
+        ev = t.events[s["k"]]
+        d = s.get("dump")
+        if ev[0] == "L" and isinstance(ev[2], str) and prev is not None and d is not None and not s.get("panics"):
+            actor = cm.nick.get(ev[1])
+            mine = (s.get("out") or {}).get(str(ev[1]), [])
+            if actor in prev["users"]:
+                users = prev["users"]
+                if ev[2].strip().upper() == "LUSERS":
+                    inv = sum(1 for u in users.values() if "i" in u["modes"])
+                    ops = sum(1 for u in users.values() if "o" in u["modes"] or "O" in u["modes"])
+                    exp = {"251": ":There are %d users and %d invisible on 1 servers" % (len(users) - inv, inv),
+                           "252": "%d :operator(s) online" % ops, "254": "%d :channels formed" % len(prev["channels"]),
+                           "255": ":I have %d clients and 1 servers" % len(users)}
+                    for code, text in exp.items():
+                        ls = [l for l in mine if numeric_of(l) == code]
+                        if len(ls) != 1 or not ls[0].endswith(" " + text):
+                            fails.append(("LUSERS %s says %r, the true figures give %r" % (code, ls, text), {"step": s["k"]}))
+                    ls = [l for l in mine if numeric_of(l) == "265"]
+                    if len(ls) != 1 or not re.search(r" %d (\d+) :Current local users %d, max \1$" % (len(users), len(users)), ls[0]):
+                        fails.append(("LUSERS 265 says %r with %d users" % (ls, len(users)), {"step": s["k"]}))
+                m = re.match(r"^ISON (.+)$", ev[2])
+                if m and ":" not in ev[2]:
+                    q = m.group(1).split()
+                    exp = [n for n in q if n in users]
+                    got = []
+                    for l in mine:
+                        mm = re.match(r"^:\S+ 303 \S+ :(.*)$", l)
+                        if mm:
+                            got += [x for x in mm.group(1).split(" ") if x]
+                    if got != exp:
+                        fails.append(("ISON %r answered %r, registered among them are %r" % (q, got, exp), {"step": s["k"]}))
+                m = re.match(r"^USERHOST (.+)$", ev[2])
+                if m and ":" not in ev[2] and not (mine and numeric_of(mine[0]) == "ERROR"):
+                    q = m.group(1).split()
+                    exp = []
+                    for n in q:
+                        if n in users:
+                            u = users[n]
+                            exp.append("%s%s=%s~%s@%s" % (n, "*" if ("o" in u["modes"] or "O" in u["modes"]) else "", "-" if u["away"] is not None else "+", u["name"], u["host"]))
+                    got = []
+                    for l in mine:
+                        mm = re.match(r"^:\S+ 302 \S+ :(.*)$", l)
+                        if mm:
+                            got += [x for x in mm.group(1).split(" ") if x]
+                    if got != exp:
+                        fails.append(("USERHOST %r answered %r, expected %r" % (q, got, exp), {"step": s["k"]}))
+        cm.update(s)
+        prev = d
+    return fails
+
+
+def c19_slot_traces(res):
+    traces = []
+    rng = random.Random(res.seed + 19)
+    for mc in (1, 2, 3):
+        for rep in range(4 if res.tier == "quick" else 12):
+            cfg = Config(max_connections=mc, password="secret1" if rep % 4 == 3 else None)
+            t = Trace("c19-slots-%d-%d" % (mc, rep), cfg)
+            opened = []
+            nxt = 0
+            for _ in range(30):
+                r = rng.random()
+                if r < 0.45 or not opened:
+                    cid = nxt
+                    nxt += 1
+                    t.open(cid)
+                    opened.append(cid)
+                    how = rng.choice(["none", "nick", "full", "badpw", "garbage"])
+                    if how in ("nick", "full", "badpw"):
+                        if cfg.password:
+                            t.line(cid, "PASS " + ("wrongpw" if how == "badpw" else "secret1"))
+                        t.line(cid, "NICK n%d" % cid)
+                    if how in ("full", "badpw"):
+                        t.line(cid, "USER u 8 * :U")
+                    if how == "garbage":
+                        t.raw(cid, b"\xff\xfe\r\n")
+                else:
+                    cid = rng.choice(opened)
+                    opened.remove(cid)
+                    if rng.random() < 0.5:
+                        t.close(cid)
+                    else:
+                        t.line(cid, "QUIT")
+                        t.close(cid)
+            t.meta = {"max_connections": mc}
+            traces.append(t)
+    return traces
+
+
+def check_C19(res):
+    slots = c19_slot_traces(res)
+    n = 120 if res.tier == "quick" else 2500
+    prof = {"weights": dict(LUSERS=10, ISON=8, USERHOST=8, UMODE=14, OPER=8, NICK=5, JOIN=8, PART=4, KICK=2, QUIT=3, AWAY=4, KILL=1.5, REG=2),
+            "p_close": 0.1, "max_conns": 6, "initial_conns": 3, "p_default_mode": 0.2, "p_operators": 1.0}
+    def orc(t, steps):
+        return stats_oracle(t, steps) + inv_oracle(t, steps)
+    r = l2_campaign(res, "C19", n, 70 if res.tier == "quick" else 200, prof, traces=slots, oracle=orc)
+    res.coverage.update({
+        "evaluations": r["steps"], "distinct_nontrivial": r["summary"]["reply_codes"].get("251", 0) + r["summary"]["reply_codes"].get("303", 0) + r["summary"]["reply_codes"].get("302", 0),
+        "rule": "%d seeded random histories of %d events weighted to registrations, +i/-i, +o/-o, +O/-O, repeated OPER, nick changes, channel creation/destruction, every kind of session ending, with LUSERS / "
+                "ISON / USERHOST queries interleaved; plus slot histories for max_connections in {1,2,3}: random opening (nothing sent / NICK only / full registration / wrong password / invalid bytes), "
+                "refusing and closing; oracle on the implementation: every LUSERS figure equals the count over the user table of the same state, the maximum equals the high-water mark of the history, "
+                "ISON/USERHOST list exactly the registered queried nicks with * for operators and - for away, the invisible/operator counters equal the flag counts after every step, conns_count equals the "
+                "number of open connections and never exceeds max_connections; distinct_nontrivial = LUSERS/ISON/USERHOST answers checked" % (n, 70 if res.tier == "quick" else 200),
+        "traces_validated_against_impl": r["traces"],
+        "samples": [slots[0].describe()["events"][:14]],
+        "l2": r["summary"]})
